@@ -59,10 +59,11 @@ def std_requests(run, funcs):
         if f in skip:
             continue
         tuples = [(a,) for a in B_ALL]
-        tuples += list(itertools.product(B_CORE, repeat=2))
-        tuples += [(r.choice(B_ALL), r.choice(B_ALL)) for _ in range(400 if thorough else 40)]
-        tuples += [tuple(r.choice(B_ALL) for _ in range(3)) for _ in range(600 if thorough else 60)]
-        tuples += [tuple(r.choice(B_ALL) for _ in range(4)) for _ in range(150 if thorough else 15)]
+        if thorough:
+            tuples += list(itertools.product(B_CORE, repeat=2))
+        tuples += [(r.choice(B_ALL), r.choice(B_ALL)) for _ in range(600 if thorough else 45)]
+        tuples += [tuple(r.choice(B_ALL) for _ in range(3)) for _ in range(800 if thorough else 25)]
+        tuples += [tuple(r.choice(B_ALL) for _ in range(4)) for _ in range(200 if thorough else 6)]
         tuples.append(())
         for t in tuples:
             reqs.append({"code": f"std.{f}({', '.join(t)})", "out": "none"})
@@ -77,13 +78,13 @@ def std_requests(run, funcs):
 
 def fuzz_sources(run):
     r = run.rng.fork("fuzz")
-    n_tok = 20000 if run.tier == "thorough" else 2500
+    n_tok = 20000 if run.tier == "thorough" else 1500
     out = []
     for _ in range(n_tok):
         k = 1 + r.below(12)
         out.append(" ".join(r.choice(TOKENS) for _ in range(k)))
     pg = g.ProgGen(r.fork("mut"), p_err=0.02)
-    for _ in range(3000 if run.tier == "thorough" else 500):
+    for _ in range(3000 if run.tier == "thorough" else 300):
         src = g.to_js(pg.program())
         toks = src.replace("(", " ( ").replace(")", " ) ").replace("[", " [ ").replace("]", " ] ").split(" ")
         toks = [t for t in toks if t]
@@ -123,9 +124,11 @@ def recursion_requests():
                 reqs.append(rq)
                 if n <= L // 4:
                     expect.append(("ok", n))
-                elif n > L:
+                elif n > L and shape is rec:
                     expect.append(("StackOverflow", n))
                 else:
+                    # the object/array shapes recurse through lazily evaluated fields/elements: call
+                    # frames do not nest there, so the frame limit need not trigger
                     expect.append(("either", n))
     selfdep = ["local a = a; a", "{a: self.a}.a", "local a = [a[0]]; a[0]", "local a = {b: a.b}; a.b",
                "local f(x) = x, a = f(a); a", "{a: self.b, b: self.a}.a", "{assert self.a > 0, a: self.b, b: self.a}.a",
